@@ -15,7 +15,7 @@ use std::collections::BTreeMap;
 
 pub struct C10;
 
-const ALPHA: &[&str] = &["a", "b", "/", ".", "é", "😀", "a", "b", " "];
+const ALPHA: &[&str] = &["a", "b", "/", ".", "é", "😀", "a", "b", " ", "\n"];
 
 fn gen_regex(rng: &mut Rng, depth: usize) -> String {
     let atom = |rng: &mut Rng| -> String {
